@@ -50,6 +50,25 @@ using std::ostringstream;
 using std::set;
 using std::string;
 
+/**
+ * Returns the remap of the set that has the lowest wrapper index.  The set is
+ * ordered by address, so taking its first element would make the generated
+ * code depend on where the remaps happen to live in memory.
+ */
+static FunctionRemap *
+get_first_remap(const std::set<FunctionRemap *> &remaps) {
+  FunctionRemap *first = nullptr;
+  for (FunctionRemap *remap : remaps) {
+    if (first == nullptr ||
+        remap->_wrapper_index < first->_wrapper_index ||
+        (remap->_wrapper_index == first->_wrapper_index &&
+         remap->_function_signature < first->_function_signature)) {
+      first = remap;
+    }
+  }
+  return first;
+}
+
 extern InterrogateType dummy_type;
 extern std::string EXPORT_IMPORT_PREFIX;
 
@@ -2131,7 +2150,7 @@ write_module_class(ostream &out, Object *obj) {
       // functions with different names mapped to the same slot.
       string fname;
       if (def._remaps.size() > 0) {
-        const FunctionRemap *first_remap = *def._remaps.begin();
+        const FunctionRemap *first_remap = get_first_remap(def._remaps);
         fname = first_remap->_cppfunc->get_simple_name();
       }
 
@@ -2550,7 +2569,7 @@ write_module_class(ostream &out, Object *obj) {
           out << "static int " << def._wrapper_name << "(PyObject *self) {\n";
 
           // Find the remap.  There should be only one.
-          FunctionRemap *remap = *def._remaps.begin();
+          FunctionRemap *remap = get_first_remap(def._remaps);
           const char *container = "";
 
           if (remap->_has_this) {
@@ -2791,7 +2810,7 @@ write_module_class(ostream &out, Object *obj) {
           out << "static int " << def._wrapper_name << "(PyObject *self, visitproc visit, void *arg) {\n";
 
           // Find the remap.  There should be only one.
-          FunctionRemap *remap = *def._remaps.begin();
+          FunctionRemap *remap = get_first_remap(def._remaps);
 
           out << "  " << cClassName << " *local_this = nullptr;\n";
           out << "  DTOOL_Call_ExtractThisPointerForType(self, &Dtool_" << ClassName << ", (void **)&local_this);\n";
@@ -2861,7 +2880,7 @@ write_module_class(ostream &out, Object *obj) {
           out << "    return -1;\n";
           out << "  }\n\n";
 
-          FunctionRemap *remap = *def._remaps.begin();
+          FunctionRemap *remap = get_first_remap(def._remaps);
           vector_string params;
           out << "  return (Py_hash_t) " << remap->call_function(out, 4, false, "local_this", params) << ";\n";
           out << "}\n\n";
